@@ -1,0 +1,8 @@
+//go:build !verif
+
+package rp
+
+import "context"
+
+// verifPoint is a no-op unless the module is built with the verif tag.
+func verifPoint(context.Context, any, string, ...any) {}
